@@ -1,30 +1,46 @@
 from orchestrate.common import run_check
 
-SPEC = {
-    "pid": "C11",
-    "coq_targets": ["Props/C11.vo", "Extract/ExC11.vo"],
-    "bin": "c11",
-    "sizes": {"quick": 300000, "thorough": 12000000},
-    "search_n": 2000000,
-    "min_cases": {"quick": 300000, "thorough": 11000000},
-    "rule": ("exhaustive part: I/D for n<=12 (thorough 40) x every shard x 4 boundary ranges; S for every n<=64 x every msb 0..63 x "
-             "fixed boundary tokens + first/last token of every shard (msb 0) / directed near-boundary tokens; directed ShardInfo "
-             "boundary (shard = nr-1, nr, nr+1; nr = 0). Seeded random part: S=shard_of(n,msb,token) with 3/8 of the tokens within "
-             "+-2 of a shard boundary of the case's own sharder (both sides), I=port iterator, D=drawn port, P=shard_of_source_port, "
-             "R=ShardInfo parsing. Non-trivial = every case except R cases with all three entries missing; distinct = distinct case lines"),
-    "nontrivial": lambda ln: not ln.startswith("R N N N"),
-    "trusted_base": [
-        "spec_shard_of / spec_ports are the ScyllaDB definitions transcribed from the property text",
-        "hook scylla::routing::verif_sharding (pass-through to *_from_range and ShardInfo::try_from)",
-    ],
-    "assumptions": [
-        "msb_ignore <= 63 (the quantifier of C11; >= 64 overflows the Rust shift and is not generated)",
-        "random pivot/index of the port functions is an oracle: observed outputs are checked with acceptors proved sound (accept_iter, accept_draw) and, for the iterator, complete (accept_iter_complete)",
-    ],
-}
+import re
+
+
+def _stat(ln, key):
+    m = re.search(r"[=,]%s:(\d+)" % key, ln)
+    return int(m.group(1)) if m else 0
+
+
+def _sa(ln):
+    m = re.search(r" sa=(\S+)", ln)
+    return 0 if not m or m.group(1) == "-" else len(m.group(1).split(","))
+
+
+def _skipped(ln):
+    return ln.startswith("E ") and "| not-run" in ln
+
+
+def _e_fields(ln):
+    f = ln.split()
+    return {"n": int(f[2], 16), "nodes": int(f[3], 16), "per": int(f[4], 16), "lo": int(f[5], 16), "hi": int(f[6], 16),
+            "planned": 0 if f[7] == "-" else len(f[7].split(","))}
+
+
+# floors over the judged E scenarios of a full run, as (name, measure, floor per judged scenario); typical values of the
+# generator (seeds 1, 2, 3, 7, 11, 12345; 60 scenarios each) are 1.8-2.8 / 0.63-0.75 / 0.87-1.46 / 0.25-0.40 /
+# 0.25-0.40 / 0.62-0.73
+E_FLOORS = [
+    ("connections accepted on the shard-aware port", lambda ln, f: _sa(ln), 1.0),
+    ("scenarios with a starved shard (every port pre-bound, or none in the range)", lambda ln, f: 1 if _stat(ln, "starved") > 0 else 0, 0.30),
+    ("(node, shard) pairs with a pre-bound and a free port that got a shard-aware connection", lambda ln, f: _stat(ln, "mv"), 0.40),
+    ("scenarios whose range ends at 65535", lambda ln, f: 1 if f["hi"] == 65535 else 0, 0.10),
+    ("scenarios whose range is shorter than nr_shards", lambda ln, f: 1 if f["hi"] - f["lo"] + 1 < f["n"] else 0, 0.10),
+    ("scenarios with pre-bound ports", lambda ln, f: 1 if " pre=- " not in ln else 0, 0.35),
+]
+
 
 def _post(lines, verdicts):
-    """per-kind floors: every case kind must really have been exercised"""
+    """per-kind floors: every case kind must really have been exercised.
+    E (end-to-end) scenarios: those not run (mock / session did not start, pool not full or a request not back within
+    the harness cap) observe nothing: tolerated up to max(3, 5 %), a diff above; a full run must contain at least 100
+    scenarios and reach the E_FLOORS."""
     out = []
     if len(lines) >= 100000:
         kinds = {}
@@ -33,7 +49,89 @@ def _post(lines, verdicts):
         for k in "SIDPR":
             if kinds.get(k, 0) < len(lines) // 100:
                 out.append(("diff", f"{k} (floor)", f"diff coverage-floor kind {k}: {kinds.get(k, 0)} cases < 1% of {len(lines)}"))
+        if kinds.get("E", 0) < 100:
+            out.append(("diff", "E (floor)", f"diff coverage-floor kind E: {kinds.get('E', 0)} end-to-end scenarios < 100"))
+    e = [ln for ln in lines if ln.startswith("E ")]
+    if not e:
+        return out
+    sk = [ln for ln in e if _skipped(ln)]
+    if len(sk) > max(3, len(e) // 20):
+        out.append(("diff", sk[0], "diff e2e tie not exercised: %d of %d scenarios were not run (%s)"
+                    % (len(sk), len(e), sk[0].split("|", 1)[1].strip())))
+    judged = [ln for ln in e if "| sa=" in ln]
+    if len(e) >= 100:
+        for name, measure, floor in E_FLOORS:
+            tot = sum(measure(ln, _e_fields(ln)) for ln in judged)
+            if tot < floor * len(judged) or not judged:
+                out.append(("diff", e[0][:200], "diff e2e floor: %s: %d in %d judged scenarios (floor %.2f per scenario)"
+                            % (name, tot, len(judged), floor)))
     return out
+
+
+def _e2e_cov(lines):
+    e = [ln for ln in lines if ln.startswith("E ")]
+    judged = [ln for ln in e if "| sa=" in ln]
+    cov = {
+        "e2e_scenarios": len(e),
+        "e2e_scenarios_not_run": sum(1 for ln in e if _skipped(ln)),
+        "e2e_connections_accepted": sum(_stat(ln, "op") for ln in judged),
+        "e2e_shard_aware_connections_checked": sum(_sa(ln) for ln in judged),
+        "e2e_shard_aware_connections_closed_by_the_client": sum(_stat(ln, "cc") for ln in judged),
+        "e2e_starved_node_shard_pairs": sum(_stat(ln, "starved") for ln in judged),
+        "e2e_pairs_with_bound_and_free_ports": sum(_stat(ln, "some") for ln in judged),
+        "e2e_scenarios_with_two_nodes": sum(1 for ln in judged if _e_fields(ln)["nodes"] == 2),
+        "e2e_scenarios_with_two_connections_per_shard": sum(1 for ln in judged if _e_fields(ln)["per"] == 2),
+        "e2e_scenarios_without_any_shard_aware_connection": sum(1 for ln in judged if _sa(ln) == 0),
+        "e2e_slowest_pool_fill_ms": max([_stat(ln, "ms") for ln in judged] or [0]),
+    }
+    for name, measure, _ in E_FLOORS:
+        cov["e2e_" + re.sub(r"[^a-z0-9]+", "_", name.lower()).strip("_")] = sum(measure(ln, _e_fields(ln)) for ln in judged)
+    return cov
+
+
+SPEC = {
+    "pid": "C11",
+    "coq_targets": ["Props/C11.vo", "Extract/ExC11.vo"],
+    "bin": "c11",
+    "sizes": {"quick": 300000, "thorough": 12000000},
+    "search_n": 2000000,
+    # quick: 27 458 exhaustive + 300 000 random + 120 E; a run that lost its end-to-end part is below the floor
+    "min_cases": {"quick": 327500, "thorough": 11000000},
+    "rule": ("exhaustive part: I/D for n<=12 (thorough 40) x every shard x 4 boundary ranges; S for every n<=64 x every msb 0..63 x "
+             "fixed boundary tokens + first/last token of every shard (msb 0) / directed near-boundary tokens; directed ShardInfo "
+             "boundary (shard = nr-1, nr, nr+1; nr = 0). Seeded random part: S=shard_of(n,msb,token) with 3/8 of the tokens within "
+             "+-2 of a shard boundary of the case's own sharder (both sides), I=port iterator, D=drawn port, P=shard_of_source_port, "
+             "R=ShardInfo parsing. End-to-end part: E = one seeded scenario (120 quick / 1200 thorough) of a real Session against "
+             "mocknode: 1-2 nodes x 2-6 shards, PoolSize::PerShard(1-2), shard_aware_local_port_range(lo..=hi) of 1..4*nr_shards-1 ports "
+             "placed outside the kernel's ephemeral range by the scenario seed (a few ports per shard, ranges ending at 65535, ranges "
+             "shorter than nr_shards, single ports), local ports pre-bound by the harness on the session's own client address (none / "
+             "random half / whole shards / all but one port per shard / every port); the scenario waits until every shard of every "
+             "node has its pool connections, sends requests and reports every connection the mock accepted on the shard-aware port. "
+             "Non-trivial = every case except R cases with all three entries missing and E scenarios that were not run; "
+             "distinct = distinct case lines"),
+    "nontrivial": lambda ln: not ln.startswith("R N N N") and not _skipped(ln),
+    "extra_coverage": lambda lines, verdicts: _e2e_cov(lines),
+    "trusted_base": [
+        "spec_shard_of / spec_ports are the ScyllaDB definitions transcribed from the property text",
+        "hook scylla::routing::verif_sharding (pass-through to *_from_range and ShardInfo::try_from)",
+        "vh::mocknode (scripted CQL mock cluster): per accepted connection the listener it came in on, the client's source port and "
+        "the shard the node assigned (source port mod nr_shards on the shard-aware port, as ScyllaDB does) and reported in SUPPORTED",
+        "E lines: the harness' pre-bound sockets (tokio TcpSocket bound without SO_REUSEADDR on the session's client address) make "
+        "exactly those local ports address-in-use; the coverage statistics (st=) are computed by the runner, only starved is "
+        "recomputed by the driver with the extracted starvedb",
+    ],
+    "assumptions": [
+        "msb_ignore <= 63 (the quantifier of C11; >= 64 overflows the Rust shift and is not generated)",
+        "random pivot/index of the port functions is an oracle: observed outputs are checked with acceptors proved sound (accept_iter, accept_draw) and, for the iterator, complete (accept_iter_complete)",
+        "connect loop: the result class of open_connection per source port (address unavailable / connected / other error) is an oracle "
+        "that depends on the port only (the loop asks at most once per port, C11_connect_tried); the classification "
+        "is_address_unavailable_for_use itself (AddrInUse | PermissionDenied | AddrNotAvailable) is not modelled and only AddrInUse is produced by the tie",
+        "E lines judge connections the mock ACCEPTED: failed bind attempts never reach the network, so the order of the attempts and "
+        "'at most once per port' are theorems about the model only; 'returns at the first success' is observed as at most per_shard "
+        "shard-aware connections per (node, shard), 'falls back to the plain port after NoSourcePortForShard' as every starved shard "
+        "being served by plain-port connections (both reported as diff, not viol: they are not sentences of C11)",
+    ],
+}
 
 
 SPEC["post"] = _post
